@@ -608,6 +608,13 @@ def emit() -> str:
     L.append("def rootOf : List (String × Root) := [")
     L.append(",\n".join(f"  ({lstr(c)}, .{r})" for c, r in d["root_of"]) + "]")
     L.append("")
+    adds = sorted({(f"{s_['owner']}.{s_['attr']}", s_["kind"]) for s_ in d["sites"] if s_["op"] == "add"})
+    rems = sorted({f"{s_['owner']}.{s_['attr']}" for s_ in d["sites"] if s_["op"] == "remove"})
+    L.append("/-- (dynamic manager, level) for every `add_request` site outside `_init_request_manager` -/")
+    L.append("def dynAdds : List (String × Level) := [" + ", ".join(f"({lstr(m)}, .{lv})" for m, lv in adds) + "]")
+    L.append("/-- dynamic managers that also have a `remove_request` site -/")
+    L.append("def dynRemoves : List String := [" + ", ".join(lstr(m) for m in rems) + "]")
+    L.append("")
     L.append("def schema : Schema :=\n  { mgrs := mgrs, levelClasses := levelClasses, slotClasses := slotClasses, names := softwareNames, choices := choices }")
     L.append("")
     L.append("end Primaite.Gen.RequestSchema")
